@@ -163,8 +163,9 @@ class WorldAdapter:
                     desper.Controller.on_add(self, entity, world)
                 if env.killer and env.killer[0] == self.name and cb == 'on_remove':
                     victim, immediate = env.killer[1], env.killer[2]
+                    always = len(env.killer) > 3
                     env.killer = None
-                    if world.get_components(victim):
+                    if always or world.get_components(victim):
                         world.delete_entity(victim, immediate=immediate)
                 if env.reentrant and env.reentrant[1] == self.name and cb == 'on_remove' and env.reentrant[0] == 'disable_on_remove':
                     env.reentrant = None
@@ -314,6 +315,9 @@ class WorldAdapter:
             elif name == 'ProcessKiller':
                 env.killer = (args[1], pyid(args[2]), True)
                 w.process(args[0])
+            elif name == 'ClearScheduler':
+                env.killer = (args[0], pyid(args[1]), False, 'always')
+                w.clear()
             elif name == 'ProcessScheduler':
                 env.killer = (args[1], pyid(args[2]), False)
                 w.process(args[0])
